@@ -168,6 +168,12 @@ func runUnit(w *World, pk *Pkg, c *Contract) (res *UnitResult) {
 			}
 		}
 		e.inputs[obj] = v
+		if sig, ok := types.Unalias(obj.Type()).Underlying().(*types.Signature); ok {
+			st.vars[e.ghostKey("ncalls", obj)] = Value{e.izero(), types.Typ[types.Int]}
+			if sig.Results().Len() > 0 {
+				st.vars[e.ghostKey("lastret", obj)] = e.zero(sig.Results().At(0).Type())
+			}
+		}
 		if e.boxed[obj] {
 			e.declVar(st, obj, v)
 		} else {
@@ -366,6 +372,9 @@ func solveUnit(r *UnitResult, opts solveOpts) {
 	sem := make(chan struct{}, opts.par)
 	for _, o := range r.Obligs {
 		o := o
+		if o.Status != "" {
+			continue
+		}
 		wg.Add(1)
 		sem <- struct{}{}
 		go func() {
